@@ -1,4 +1,5 @@
-(* Lexer_proofs.v — proofs about Lexer.v *)
+(* Lexer_proofs.v — proofs about Lexer.v: totality, progress, error classes and
+   rejection lemmas of the tokenizer model. *)
 From VF Require Import Base Gen_Errors Lexer.
 From Coq Require Import Lia ZifyBool ZifyN ZifyNat.
 Open Scope N_scope.
@@ -10,4 +11,838 @@ Proof.
   - destruct (p x).
     + destruct IH as [pre H]. exists (x :: pre). cbn. congruence.
     + exists []; reflexivity.
+Qed.
+
+(* ------------------------------------------------------------------ *)
+(* error classes *)
+
+Definition eclass (e : Z) : Prop := (-199 <= e <= -100)%Z \/ e = DataOutOfRange.
+
+Ltac ec :=
+  subst; unfold eclass;
+  cbv delta [InvalidCharacter SyntaxError InvalidSeparator CommandHeaderError HeaderSeparatorError
+             ProgramMnemonicTooLong NumericDataError InvalidCharacterInNumber InvalidSuffix
+             SuffixTooLong SuffixNotAllowed InvalidCharacterData CharacterDataTooLong
+             InvalidStringData BlockDataError InvalidBlockData InvalidExpression DataOutOfRange];
+  lia.
+
+(* a reader result: no panic; Ok leaves at most n bytes; Err is of the right class *)
+Definition good (n : nat) (r : outcome lres) : Prop :=
+  exists x, r = Val x /\
+    match x with Ok (_, rest) => (length rest <= n)%nat | Err e => eclass e end.
+
+Lemma good_err n e : eclass e -> good n (Val (Err e)).
+Proof. intros H. exists (Err e). split; [reflexivity|exact H]. Qed.
+
+Lemma good_ok n t rest : (length rest <= n)%nat -> good n (Val (Ok (t, rest))).
+Proof. intros H. exists (Ok (t, rest)). split; [reflexivity|exact H]. Qed.
+
+(* ------------------------------------------------------------------ *)
+(* util *)
+
+Lemma skip_while_len p c : (length (skip_while p c) <= length c)%nat.
+Proof.
+  induction c as [|a c IH]; cbn [skip_while length]; [lia|].
+  destruct (p a); cbn [length]; lia.
+Qed.
+
+Lemma skip_ws_len c : (length (skip_ws c) <= length c)%nat.
+Proof. apply skip_while_len. Qed.
+
+Lemma skip_sign_len c : (length (skip_sign c) <= length c)%nat.
+Proof.
+  destruct c as [|x c]; cbn [skip_sign length]; [lia|].
+  destruct (is_sign x); cbn [length]; lia.
+Qed.
+
+Lemma scan12_len p : forall c n r, scan12 p n c = Some r -> (length r <= length c)%nat.
+Proof.
+  induction c as [|a c IH]; intros n r H; cbn [scan12] in H.
+  - inversion H; subst; cbn [length]; lia.
+  - destruct (p a).
+    + destruct (Nat.ltb 12 (S n)); [discriminate|].
+      apply IH in H. cbn [length]; lia.
+    + inversion H; subst; lia.
+Qed.
+
+Lemma scan12_len_strict p x c n r :
+  scan12 p n (x :: c) = Some r -> p x = true -> (length r <= length c)%nat.
+Proof.
+  intros H Hx. cbn [scan12] in H. rewrite Hx in H.
+  destruct (Nat.ltb 12 (S n)); [discriminate|].
+  apply scan12_len in H. exact H.
+Qed.
+
+Lemma consumed_ok (s rest : list byte) k :
+  (length rest + k <= length s)%nat -> exists p, consumed s rest k = Val p.
+Proof.
+  intros H. unfold consumed, usub.
+  destruct (Nat.ltb (length s) (length rest)) eqn:E1; [apply Nat.ltb_lt in E1; lia|].
+  cbn [obind].
+  destruct (Nat.ltb (length s - length rest) k) eqn:E2; [apply Nat.ltb_lt in E2; lia|].
+  cbn [obind]. unfold slice_to.
+  destruct (Nat.ltb (length s) (length s - length rest - k)) eqn:E3; [apply Nat.ltb_lt in E3; lia|].
+  eauto.
+Qed.
+
+Lemma sws_sep err c :
+  match skip_ws_to_separator err c with
+  | Ok r => (length r <= length c)%nat
+  | Err e => e = err
+  end.
+Proof.
+  unfold skip_ws_to_separator. pose proof (skip_ws_len c) as H.
+  cbv zeta. destruct (skip_ws c) as [|x r]; [cbn [length]; lia|].
+  destruct (negb (x =? 44) && negb (x =? 59) && negb (x =? 10)); [reflexivity|exact H].
+Qed.
+
+Lemma good_sws n err (rest : list byte) (f : list byte -> token) :
+  eclass err -> (length rest <= n)%nat ->
+  good n (match skip_ws_to_separator err rest with
+          | Err e => Val (Err e)
+          | Ok rest' => Val (Ok (f rest', rest'))
+          end).
+Proof.
+  intros He Hn. pose proof (sws_sep err rest) as H.
+  destruct (skip_ws_to_separator err rest) as [r|e].
+  - apply good_ok. lia.
+  - apply good_err. subst. exact He.
+Qed.
+
+(* ------------------------------------------------------------------ *)
+(* readers *)
+
+Lemma read_mnemonic_strict common x c :
+  ((x =? 42) && common = true \/ is_mnemonic_char x = true) ->
+  good (length c) (read_mnemonic common (x :: c)).
+Proof.
+  intros H. unfold read_mnemonic. cbv zeta.
+  destruct ((x =? 42) && common) eqn:E.
+  - destruct (scan12 is_mnemonic_char 0 c) as [r|] eqn:S.
+    + apply scan12_len in S.
+      destruct (consumed_ok (x :: c) r 0) as [p Hp]; [cbn [length]; lia|].
+      rewrite Hp. cbn [obind]. apply good_ok. exact S.
+    + apply good_err. ec.
+  - destruct H as [H|H]; [discriminate|].
+    destruct (scan12 is_mnemonic_char 0 (x :: c)) as [r|] eqn:S.
+    + apply scan12_len_strict in S; [|exact H].
+      destruct (consumed_ok (x :: c) r 0) as [p Hp]; [cbn [length]; lia|].
+      rewrite Hp. cbn [obind]. apply good_ok. exact S.
+    + apply good_err. ec.
+Qed.
+
+Lemma read_character_data_strict x c :
+  is_mnemonic_char x = true -> good (length c) (read_character_data (x :: c)).
+Proof.
+  intros H. unfold read_character_data.
+  destruct (scan12 is_mnemonic_char 0 (x :: c)) as [r|] eqn:S.
+  - apply scan12_len_strict in S; [|exact H].
+    destruct (consumed_ok (x :: c) r 0) as [p Hp]; [cbn [length]; lia|].
+    rewrite Hp. cbn [obind].
+    apply (good_sws (length c) InvalidCharacterData r (fun _ => TChar p)); [ec|exact S].
+  - apply good_err. ec.
+Qed.
+
+Lemma read_exponent_len c :
+  match read_exponent c with
+  | Ok r => (length r <= length c)%nat
+  | Err e => e = NumericDataError
+  end.
+Proof.
+  destruct c as [|x c]; cbn [read_exponent]; [cbn [length]; lia|].
+  destruct ((x =? 69) || (x =? 101)); [|lia].
+  unfold skip_digits.
+  destruct (match skip_sign c with [] => false | y :: _ => is_digit y end); [|reflexivity].
+  pose proof (skip_while_len is_digit (skip_sign c)). pose proof (skip_sign_len c).
+  cbn [length]; lia.
+Qed.
+
+Definition hd_eqb (k : N) (c : list byte) : bool :=
+  match c with y :: _ => y =? k | [] => false end.
+
+Lemma skip_digits_spec s :
+  (fst (skip_digits s) = false /\ snd (skip_digits s) = s) \/
+  (fst (skip_digits s) = true /\ (length (snd (skip_digits s)) < length s)%nat).
+Proof.
+  unfold skip_digits. cbn [fst snd].
+  destruct s as [|x s]; [left; split; reflexivity|].
+  cbn [skip_while]. destruct (is_digit x).
+  - right. split; [reflexivity|]. pose proof (skip_while_len is_digit s). cbn [length]; lia.
+  - left. split; reflexivity.
+Qed.
+
+Lemma read_nrf_rest_eq c :
+  read_nrf_rest c =
+  let leading := fst (skip_digits (skip_sign c)) in
+  let c2 := snd (skip_digits (skip_sign c)) in
+  if hd_eqb 46 c2 then
+    let frac := fst (skip_digits (tl c2)) in
+    let c4 := snd (skip_digits (tl c2)) in
+    if negb frac && negb leading then Err NumericDataError else read_exponent c4
+  else if negb leading then Err NumericDataError else read_exponent c2.
+Proof.
+  unfold read_nrf_rest, skip_digits. cbv beta iota zeta. cbn [fst snd].
+  destruct (skip_while is_digit (skip_sign c)) as [|y c3]; [reflexivity|].
+  destruct y as [|p]; [reflexivity|].
+  do 6 (destruct p as [p|p|]; try reflexivity).
+Qed.
+
+Lemma read_nrf_rest_len c :
+  match read_nrf_rest c with
+  | Ok r => (length r < length c)%nat
+  | Err e => e = NumericDataError
+  end.
+Proof.
+  rewrite read_nrf_rest_eq. cbv zeta.
+  pose proof (skip_sign_len c) as Hs.
+  destruct (skip_digits_spec (skip_sign c)) as [[Hl Hc]|[Hl Hc]]; rewrite Hl.
+  - (* no leading digits *)
+    rewrite Hc. cbn [negb]. rewrite andb_true_r.
+    destruct (hd_eqb 46 (skip_sign c)) eqn:E46; [|reflexivity].
+    destruct (skip_sign c) as [|y c3] eqn:Ec; [discriminate|]. cbn [tl].
+    destruct (skip_digits_spec c3) as [[Hf Hd]|[Hf Hd]]; rewrite Hf; cbn [negb]; [reflexivity|].
+    pose proof (read_exponent_len (snd (skip_digits c3))) as He.
+    destruct (read_exponent (snd (skip_digits c3))); [|exact He].
+    cbn [length] in *. lia.
+  - cbn [negb]. rewrite andb_false_r.
+    set (c2 := snd (skip_digits (skip_sign c))) in *.
+    destruct (hd_eqb 46 c2) eqn:E46.
+    + destruct c2 as [|y c3] eqn:Ec; [discriminate|]. cbn [tl].
+      pose proof (skip_while_len is_digit c3) as Hd.
+      unfold skip_digits at 1. cbn [snd].
+      pose proof (read_exponent_len (skip_while is_digit c3)) as He.
+      destruct (read_exponent (skip_while is_digit c3)); [|exact He].
+      cbn [length] in *. lia.
+    + pose proof (read_exponent_len c2) as He.
+      destruct (read_exponent c2); [|exact He]. lia.
+Qed.
+
+Lemma read_suffix_data_good v c : good (length c) (read_suffix_data v c).
+Proof.
+  unfold read_suffix_data.
+  destruct (scan12 is_suffix_char 0 c) as [r|] eqn:S.
+  - apply scan12_len in S.
+    destruct (consumed_ok c r 0) as [p Hp]; [lia|].
+    rewrite Hp. cbn [obind].
+    apply (good_sws (length c) InvalidSuffix r (fun _ => TDecSuffix v p)); [ec|exact S].
+  - apply good_err. ec.
+Qed.
+
+Lemma good_mono n m r : (n <= m)%nat -> good n r -> good m r.
+Proof.
+  intros H [x [E G]]. exists x. split; [exact E|].
+  destruct x as [[t rest]|e]; [lia|exact G].
+Qed.
+
+Lemma read_numeric_data_good c n : (length c <= S n)%nat -> good n (read_numeric_data c).
+Proof.
+  intros Hn. unfold read_numeric_data.
+  pose proof (read_nrf_rest_len c) as H.
+  destruct (read_nrf_rest c) as [rest|e]; [|apply good_err; ec].
+  destruct (consumed_ok c rest 0) as [s Hs]; [lia|].
+  rewrite Hs. cbn [obind]. cbv zeta.
+  pose proof (skip_ws_len rest) as Hw.
+  destruct (skip_ws rest) as [|x r'] eqn:E; [apply good_ok; cbn [length]; lia|].
+  destruct (is_alpha x || (x =? 47)).
+  - apply good_mono with (n := length (x :: r')); [lia|]. apply read_suffix_data_good.
+  - apply (good_sws n InvalidSuffix (x :: r') (fun _ => TDec s)); [ec|lia].
+Qed.
+
+Lemma radix_digits_len radix : forall c acc n,
+  (snd (radix_digits radix c acc n) <= n + length c)%nat.
+Proof.
+  induction c as [|x c IH]; intros acc n; cbn [radix_digits length snd]; [lia|].
+  destruct (ascii_to_digit x radix) as [d|]; [|cbn [snd]; lia].
+  specialize (IH (acc * radix + d) (S n)). lia.
+Qed.
+
+Lemma parse_partial_u64_eq radix c :
+  parse_partial_u64 radix c =
+  if hd_eqb 45 c || hd_eqb 43 c then inl LexOther
+  else let '(v, n) := radix_digits radix c 0 0 in
+       if u64_max <? v then inl LexOverflow else inr (v, n).
+Proof.
+  destruct c as [|y c]; [reflexivity|].
+  destruct y as [|p]; [reflexivity|].
+  do 6 (destruct p as [p|p|]; try reflexivity).
+Qed.
+
+Lemma parse_partial_u64_len radix c v n :
+  parse_partial_u64 radix c = inr (v, n) -> (n <= length c)%nat.
+Proof.
+  rewrite parse_partial_u64_eq.
+  destruct (hd_eqb 45 c || hd_eqb 43 c); [discriminate|].
+  pose proof (radix_digits_len radix c 0 0) as H.
+  destruct (radix_digits radix c 0 0) as [v0 n0]. cbn [snd] in H.
+  destruct (u64_max <? v0); [discriminate|].
+  intros E. inversion E; subst. lia.
+Qed.
+
+Lemma drop_unwrap_ok n (c : list byte) :
+  (n <= length c)%nat -> drop_unwrap n c = Val (skipn n c).
+Proof.
+  intros H. unfold drop_unwrap.
+  destruct (Nat.ltb (length c) n) eqn:E; [apply Nat.ltb_lt in E; lia|reflexivity].
+Qed.
+
+Lemma read_nondecimal_data_good radix c : good (length c) (read_nondecimal_data radix c).
+Proof.
+  unfold read_nondecimal_data. cbv zeta.
+  assert (G : forall b, good (length c)
+    match parse_partial_u64 b c with
+    | inl LexInvalidDigit => Val (Err InvalidCharacterInNumber)
+    | inl LexOverflow => Val (Err DataOutOfRange)
+    | inl LexOther => Val (Err NumericDataError)
+    | inr (v, len) =>
+        if Nat.ltb 0 len
+        then
+         let* rest := drop_unwrap len c
+         in match skip_ws_to_separator SuffixNotAllowed rest with
+            | Ok rest' => Val (Ok (TNonDec v, rest'))
+            | Err e => Val (Err e)
+            end
+        else Val (Err NumericDataError)
+    end).
+  { intros b. destruct (parse_partial_u64 b c) as [[| |]|[v n]] eqn:P; try (apply good_err; ec).
+    apply parse_partial_u64_len in P.
+    destruct (Nat.ltb 0 n); [|apply good_err; ec].
+    rewrite (drop_unwrap_ok n c P). cbn [obind].
+    apply (good_sws (length c) SuffixNotAllowed (skipn n c) (fun _ => TNonDec v)); [ec|].
+    rewrite skipn_length. lia. }
+  destruct ((radix =? 72) || (radix =? 104)); [apply G|].
+  destruct ((radix =? 81) || (radix =? 113)); [apply G|].
+  destruct ((radix =? 66) || (radix =? 98)); [apply G|].
+  apply good_err; ec.
+Qed.
+
+Lemma string_loop_len q : forall n c, (length c <= n)%nat ->
+  match string_loop q c with
+  | Ok r => (S (length r) <= length c)%nat
+  | Err e => e = InvalidStringData \/ e = InvalidCharacter
+  end.
+Proof.
+  induction n as [|n IH]; intros c Hn.
+  - destruct c; [cbn [string_loop]; left; reflexivity|cbn [length] in Hn; lia].
+  - destruct c as [|ch c']; cbn [string_loop]; [left; reflexivity|].
+    cbn [length] in Hn.
+    destruct (ch =? q).
+    + destruct c' as [|c2 c'']; [cbn [length]; lia|].
+      destruct (c2 =? q); [|cbn [length]; lia].
+      cbn [length] in Hn.
+      specialize (IH c'' ltac:(lia)).
+      destruct (string_loop q c''); [cbn [length]; lia|exact IH].
+    + destruct (negb (is_ascii ch)); [right; reflexivity|].
+      specialize (IH c' ltac:(lia)).
+      destruct (string_loop q c'); [cbn [length]; lia|exact IH].
+Qed.
+
+Lemma read_string_data_good q s : good (length s) (read_string_data (q :: s)).
+Proof.
+  unfold read_string_data.
+  pose proof (string_loop_len q (length s) s (le_n _)) as H.
+  destruct (string_loop q s) as [rest|e].
+  - destruct (consumed_ok s rest 1) as [p Hp]; [lia|].
+    rewrite Hp. cbn [obind].
+    apply (good_sws (length s) SuffixNotAllowed rest (fun _ => TString p)); [ec|lia].
+  - apply good_err. destruct H; ec.
+Qed.
+
+Lemma read_arbitrary_data_good format c : good (length c) (read_arbitrary_data format c).
+Proof.
+  unfold read_arbitrary_data.
+  destruct (ascii_to_digit format 10) as [len|]; [|apply good_err; ec].
+  destruct len as [|p].
+  - destruct c as [|y c']; [apply good_err; ec|].
+    set (c := y :: c') in *.
+    assert (Hc : length c = S (length c')) by reflexivity.
+    unfold usub. destruct (Nat.ltb (length c) 1) eqn:E1; [apply Nat.ltb_lt in E1; lia|].
+    cbn [obind]. unfold slice_to.
+    destruct (Nat.ltb (length c) (length c - 1)) eqn:E2; [apply Nat.ltb_lt in E2; lia|].
+    cbn [obind]. rewrite drop_unwrap_ok by lia. cbn [obind].
+    pose proof (skipn_length (length c - 1) c) as Hk.
+    destruct (skipn (length c - 1) c) as [|last rest']; [cbn [length] in Hk; lia|].
+    destruct (last =? 10); [|apply good_err; ec].
+    apply good_ok. cbn [length] in Hk. lia.
+  - cbv zeta. set (l := N.to_nat (N.pos p)).
+    destruct (Nat.ltb (length c) l) eqn:E1; [apply good_err; ec|].
+    apply Nat.ltb_ge in E1.
+    destruct (parse_usize (firstn l c)) as [plen|]; [|apply good_err; ec].
+    rewrite drop_unwrap_ok by exact E1. cbn [obind].
+    destruct (N.of_nat (length (skipn l c)) <? plen); [apply good_err; ec|].
+    apply (good_sws (length c) SuffixNotAllowed (skipn (N.to_nat plen) (skipn l c))
+             (fun _ => TBlock (firstn (N.to_nat plen) (skipn l c)))); [ec|].
+    rewrite !skipn_length. lia.
+Qed.
+
+Lemma expr_loop_len c :
+  match expr_loop c with
+  | Ok r => (length r <= length c)%nat
+  | Err e => e = InvalidExpression
+  end.
+Proof.
+  induction c as [|x c IH]; cbn [expr_loop]; [cbn [length]; lia|].
+  destruct (x =? 41); [lia|].
+  destruct (expr_illegal x); [reflexivity|].
+  destruct (expr_loop c); [cbn [length]; lia|exact IH].
+Qed.
+
+Lemma read_expression_data_good x s : good (length s) (read_expression_data (x :: s)).
+Proof.
+  unfold read_expression_data.
+  pose proof (expr_loop_len s) as H.
+  destruct (expr_loop s) as [rest|e]; [|apply good_err; ec].
+  destruct (consumed_ok s rest 0) as [p Hp]; [lia|].
+  rewrite Hp. cbn [obind].
+  destruct rest as [|y rest1]; [apply good_err; ec|].
+  apply (good_sws (length s) SuffixNotAllowed rest1 (fun _ => TExpr p)); [ec|].
+  cbn [length] in H. lia.
+Qed.
+
+(* ------------------------------------------------------------------ *)
+(* one step *)
+
+Definition step_good (l : lexer) (s : step) : Prop :=
+  match s with
+  | SEnd => True
+  | SErr e => eclass e
+  | STok _ l' => (length (chars l') < length (chars l))%nat
+  end.
+
+Lemma of_lres_good hdr com n r l :
+  good n r -> (n < length (chars l))%nat ->
+  exists s, of_lres hdr com r = Val s /\ step_good l s.
+Proof.
+  intros [x [E G]] Hn. subst r. unfold of_lres. cbn [obind].
+  eexists. split; [reflexivity|].
+  destruct x as [[t rest]|e]; cbn [step_good chars]; [lia|exact G].
+Qed.
+
+Lemma ws_match (c0 : list byte) com :
+  match skip_ws c0 with
+  | 44 :: _ => Val (SErr SyntaxError)
+  | r0 => Val (STok THeaderSeparator (mkLexer r0 false com))
+  end =
+  if hd_eqb 44 (skip_ws c0) then Val (SErr SyntaxError)
+  else Val (STok THeaderSeparator (mkLexer (skip_ws c0) false com)).
+Proof.
+  generalize (skip_ws c0). intros r.
+  destruct r as [|y c]; [reflexivity|].
+  destruct y as [|p]; [reflexivity|].
+  do 6 (destruct p as [p|p|]; try reflexivity).
+Qed.
+
+Ltac fin :=
+  eexists; split; [reflexivity|]; cbn [step_good chars length] in *; first [exact I | ec | lia].
+
+Lemma lex_next_good l : exists s, lex_next l = Val s /\ step_good l s.
+Proof.
+  destruct l as [c hdr com]. unfold lex_next. cbn [chars in_header in_common].
+  destruct c as [|x rest]; [fin|]. cbv zeta.
+  destruct (x =? 42) eqn:E42.
+  { apply of_lres_good with (n := length rest); [|cbn [chars length]; lia].
+    apply read_mnemonic_strict. left. rewrite E42. reflexivity. }
+  destruct (x =? 58).
+  { destruct rest as [|y r].
+    - destruct (negb hdr || com); fin.
+    - destruct (negb (is_alpha y)); [fin|]. destruct (negb hdr || com); fin. }
+  destruct (x =? 63).
+  { destruct (match rest with [] => false | y :: _ => negb (is_ws y) && negb (y =? 59) end); [fin|].
+    destruct (negb hdr); fin. }
+  destruct (x =? 59).
+  { pose proof (skip_ws_len rest). fin. }
+  destruct (x =? 10).
+  { destruct rest; fin. }
+  destruct (x =? 44).
+  { destruct hdr; [fin|].
+    pose proof (skip_ws_len rest) as Hw.
+    destruct (skip_ws rest) as [|y r]; [fin|].
+    destruct ((y =? 44) || (y =? 59) || (y =? 10)); fin. }
+  destruct (is_ws x) eqn:Ews.
+  { rewrite ws_match.
+    assert (Hw : (length (skip_ws (x :: rest)) <= length rest)%nat).
+    { unfold skip_ws. cbn [skip_while]. rewrite Ews. apply skip_while_len. }
+    destruct (hd_eqb 44 (skip_ws (x :: rest))); fin. }
+  destruct (is_alpha x) eqn:Eal.
+  { assert (Hm : is_mnemonic_char x = true).
+    { unfold is_mnemonic_char, is_alnum. rewrite Eal. reflexivity. }
+    destruct hdr.
+    - apply of_lres_good with (n := length rest); [|cbn [chars length]; lia].
+      apply read_mnemonic_strict. right. exact Hm.
+    - apply of_lres_good with (n := length rest); [|cbn [chars length]; lia].
+      apply read_character_data_strict. exact Hm. }
+  destruct (is_digit x || (x =? 45) || (x =? 43) || (x =? 46)).
+  { destruct hdr; [fin|].
+    apply of_lres_good with (n := length rest); [|cbn [chars length]; lia].
+    apply read_numeric_data_good. cbn [length]; lia. }
+  destruct (x =? 35).
+  { destruct hdr; [fin|].
+    destruct rest as [|y rest']; [fin|].
+    destruct (is_digit y).
+    - apply of_lres_good with (n := length rest'); [|cbn [chars length]; lia].
+      apply read_arbitrary_data_good.
+    - apply of_lres_good with (n := length rest'); [|cbn [chars length]; lia].
+      apply read_nondecimal_data_good. }
+  destruct ((x =? 39) || (x =? 34)).
+  { destruct hdr; [fin|].
+    apply of_lres_good with (n := length rest); [|cbn [chars length]; lia].
+    apply read_string_data_good. }
+  destruct (x =? 40).
+  { apply of_lres_good with (n := length rest); [|cbn [chars length]; lia].
+    apply read_expression_data_good. }
+  destruct (is_ascii x); fin.
+Qed.
+
+(* ------------------------------------------------------------------ *)
+(* 1. totality, progress *)
+
+Theorem lex_next_no_panic : forall l, exists s, lex_next l = Val s.
+Proof. intros l. destruct (lex_next_good l) as [s [H _]]. eauto. Qed.
+
+Theorem lex_progress : forall l t l', lex_next l = Val (STok t l') ->
+  (length (chars l') < length (chars l))%nat.
+Proof.
+  intros l t l' H. destruct (lex_next_good l) as [s [E G]].
+  rewrite H in E. inversion E; subst. exact G.
+Qed.
+
+Lemma tokenize_fuel_total : forall f l, (length (chars l) < f)%nat ->
+  exists ts, tokenize_fuel f l = Val ts.
+Proof.
+  induction f as [|f IH]; intros l Hl; [lia|].
+  cbn [tokenize_fuel].
+  destruct (lex_next_good l) as [s [E G]]. rewrite E. cbn [obind].
+  destruct s as [|e|t l']; [eauto|eauto|].
+  cbn [step_good] in G.
+  destruct (IH l' ltac:(lia)) as [ts Hts]. rewrite Hts. cbn [obind]. eauto.
+Qed.
+
+Theorem tokenize_from_total : forall l, exists ts, tokenize_from l = Val ts.
+Proof. intros l. unfold tokenize_from. apply tokenize_fuel_total. lia. Qed.
+
+Theorem lex_total : forall input, exists ts, tokenize input = Val ts.
+Proof. intros input. apply tokenize_from_total. Qed.
+
+Theorem lex_params_total : forall input, exists ts, tokenize_params input = Val ts.
+Proof. intros input. apply tokenize_from_total. Qed.
+
+Lemma tokenize_fuel_shape : forall f l ts, tokenize_fuel f l = Val ts ->
+  exists toks, ts = map IOk toks \/ exists e, ts = map IOk toks ++ [IErr e].
+Proof.
+  induction f as [|f IH]; intros l ts H; cbn [tokenize_fuel] in H; [discriminate|].
+  destruct (lex_next l) as [s|site]; cbn [obind] in H; [|discriminate].
+  destruct s as [|e|t l'].
+  - inversion H; subst. exists []. left. reflexivity.
+  - inversion H; subst. exists []. right. exists e. reflexivity.
+  - destruct (tokenize_fuel f l') as [r|site] eqn:E; cbn [obind] in H; [|discriminate].
+    inversion H; subst.
+    destruct (IH l' r E) as [toks [Ht|[e Ht]]]; subst r.
+    + exists (t :: toks). left. reflexivity.
+    + exists (t :: toks). right. exists e. reflexivity.
+Qed.
+
+Theorem tokenize_shape : forall l ts, tokenize_from l = Val ts ->
+  exists toks, ts = map IOk toks \/ exists e, ts = map IOk toks ++ [IErr e].
+Proof. intros l ts H. unfold tokenize_from in H. eapply tokenize_fuel_shape. exact H. Qed.
+
+(* ------------------------------------------------------------------ *)
+(* 2. error classes *)
+
+Theorem lex_error_class : forall l e, lex_next l = Val (SErr e) ->
+  ((-199 <= e <= -100)%Z \/ e = DataOutOfRange).
+Proof.
+  intros l e H. destruct (lex_next_good l) as [s [E G]].
+  rewrite H in E. inversion E; subst. exact G.
+Qed.
+
+(* ------------------------------------------------------------------ *)
+(* 3. rejection lemmas *)
+
+Ltac bool_lia :=
+  unfold is_ws, is_mnemonic_char, is_alnum, is_alpha, is_upper, is_lower, is_digit, is_ascii in *; lia.
+
+(* decide the guard of one visible [if] by arithmetic on the byte *)
+Ltac step_if :=
+  match goal with
+  | |- context [if ?b then _ else _] =>
+      first [ replace b with false by (symmetry; bool_lia)
+            | replace b with true by (symmetry; bool_lia) ];
+      cbv beta iota
+  end.
+
+Lemma scan12_over p : forall m n rest, forallb p m = true ->
+  (n <= 12)%nat -> (n + length m > 12)%nat -> scan12 p n (m ++ rest) = None.
+Proof.
+  induction m as [|a m IH]; intros n rest Hp Hn Hl; cbn [length] in Hl; [lia|].
+  cbn [forallb] in Hp. apply andb_prop in Hp. destruct Hp as [Ha Hm].
+  cbn [app scan12]. rewrite Ha.
+  destruct (Nat.ltb 12 (S n)) eqn:E; [reflexivity|].
+  apply Nat.ltb_ge in E. apply IH; [exact Hm|lia|lia].
+Qed.
+
+Lemma scan12_stop p : forall m n rest, forallb p m = true ->
+  (n + length m <= 12)%nat -> hd true (map p rest) = false \/ rest = [] ->
+  scan12 p n (m ++ rest) = Some rest.
+Proof.
+  induction m as [|a m IH]; intros n rest Hp Hl Hr.
+  - cbn [app]. destruct rest as [|y rest]; [reflexivity|].
+    destruct Hr as [Hr|Hr]; [|discriminate]. cbn [map hd] in Hr.
+    cbn [scan12]. rewrite Hr. reflexivity.
+  - cbn [forallb] in Hp. apply andb_prop in Hp. destruct Hp as [Ha Hm].
+    cbn [length] in Hl. cbn [app scan12]. rewrite Ha.
+    destruct (Nat.ltb 12 (S n)) eqn:E; [apply Nat.ltb_lt in E; lia|].
+    apply IH; [exact Hm|lia|exact Hr].
+Qed.
+
+Lemma skip_ws_app w y rest : forallb is_ws w = true -> is_ws y = false ->
+  skip_ws (w ++ y :: rest) = y :: rest.
+Proof.
+  intros Hw Hy. unfold skip_ws. induction w as [|a w IH]; cbn [app skip_while].
+  - rewrite Hy. reflexivity.
+  - cbn [forallb] in Hw. apply andb_prop in Hw. destruct Hw as [Ha Hw].
+    rewrite Ha. apply IH. exact Hw.
+Qed.
+
+Lemma sws_sep_err e w y rest : forallb is_ws w = true -> is_ws y = false ->
+  (y =? 44) = false -> (y =? 59) = false ->
+  skip_ws_to_separator e (w ++ y :: rest) = Err e.
+Proof.
+  intros Hw Hy H44 H59. unfold skip_ws_to_separator. cbv zeta.
+  rewrite (skip_ws_app w y rest Hw Hy).
+  replace (negb (y =? 44) && negb (y =? 59) && negb (y =? 10)) with true
+    by (symmetry; bool_lia).
+  reflexivity.
+Qed.
+
+Theorem mnemonic_13 : forall m rest com, (length m = 13)%nat ->
+  (exists x m', m = x :: m' /\ is_alpha x = true) ->
+  forallb is_mnemonic_char m = true ->
+  lex_next (mkLexer (m ++ rest) true com) = Val (SErr ProgramMnemonicTooLong).
+Proof.
+  intros m rest com Hl [x [m' [Hm Hx]]] Hp.
+  assert (S : scan12 is_mnemonic_char 0 (m ++ rest) = None)
+    by (apply scan12_over; [exact Hp|lia|lia]).
+  subst m. cbn [app] in *. unfold lex_next. cbn [chars in_header in_common]. cbv zeta.
+  do 7 step_if. rewrite Hx. cbv beta iota.
+  unfold read_mnemonic. cbv zeta. rewrite andb_false_r. rewrite S. reflexivity.
+Qed.
+
+Theorem chardata_13 : forall m rest com, (length m = 13)%nat ->
+  (exists x m', m = x :: m' /\ is_alpha x = true) ->
+  forallb is_mnemonic_char m = true ->
+  lex_next (mkLexer (m ++ rest) false com) = Val (SErr CharacterDataTooLong).
+Proof.
+  intros m rest com Hl [x [m' [Hm Hx]]] Hp.
+  assert (S : scan12 is_mnemonic_char 0 (m ++ rest) = None)
+    by (apply scan12_over; [exact Hp|lia|lia]).
+  subst m. cbn [app] in *. unfold lex_next. cbn [chars in_header in_common]. cbv zeta.
+  do 7 step_if. rewrite Hx. cbv beta iota.
+  unfold read_character_data. rewrite S. reflexivity.
+Qed.
+
+Lemma string_loop_body q tail : forall body,
+  forallb (fun b => negb (b =? q) && is_ascii b) body = true ->
+  string_loop q (body ++ tail) = string_loop q tail.
+Proof.
+  induction body as [|a body IH]; intros H; [reflexivity|].
+  cbn [forallb] in H. apply andb_prop in H. destruct H as [Ha Hb].
+  apply andb_prop in Ha. destruct Ha as [Hq Has].
+  cbn [app string_loop].
+  destruct (a =? q); [discriminate|].
+  rewrite Has. cbn [negb]. apply IH. exact Hb.
+Qed.
+
+(* dispatch of lex_next on an opening quote in data position *)
+Lemma lex_next_quote q s com : (q =? 34) || (q =? 39) = true ->
+  lex_next (mkLexer (q :: s) false com) = of_lres false com (read_string_data (q :: s)).
+Proof.
+  intros Hq. unfold lex_next. cbn [chars in_header in_common]. cbv zeta.
+  do 11 step_if. reflexivity.
+Qed.
+
+Theorem unterminated_string : forall q body hdr_com, ((q =? 34) || (q =? 39))%N = true ->
+  forallb (fun b => negb (b =? q)%N && is_ascii b) body = true ->
+  lex_next (mkLexer (q :: body) false hdr_com) = Val (SErr InvalidStringData).
+Proof.
+  intros q body com Hq Hb. rewrite lex_next_quote by exact Hq.
+  unfold read_string_data.
+  rewrite <- (app_nil_r body). rewrite (string_loop_body q [] body Hb).
+  reflexivity.
+Qed.
+
+Theorem non_ascii_in_string : forall q pre b rest com, ((q =? 34) || (q =? 39))%N = true ->
+  forallb (fun b => negb (b =? q)%N && is_ascii b) pre = true -> is_ascii b = false ->
+  lex_next (mkLexer (q :: pre ++ b :: rest) false com) = Val (SErr InvalidCharacter).
+Proof.
+  intros q pre b rest com Hq Hp Hb. rewrite lex_next_quote by exact Hq.
+  unfold read_string_data. rewrite (string_loop_body q (b :: rest) pre Hp).
+  cbn [string_loop].
+  replace (b =? q) with false by (symmetry; bool_lia).
+  rewrite Hb. reflexivity.
+Qed.
+
+Theorem non_ascii_outside : forall b rest hdr com, is_ascii b = false ->
+  lex_next (mkLexer (b :: rest) hdr com) = Val (SErr InvalidCharacter).
+Proof.
+  intros b rest hdr com Hb. unfold lex_next. cbn [chars in_header in_common]. cbv zeta.
+  do 13 step_if. reflexivity.
+Qed.
+
+Lemma firstn_len_app {A} (a b : list A) : firstn (length a) (a ++ b) = a.
+Proof. induction a as [|x a IH]; cbn [length app firstn]; [destruct b; reflexivity|]. rewrite IH. reflexivity. Qed.
+
+Lemma skipn_len_app {A} (a b : list A) : skipn (length a) (a ++ b) = b.
+Proof. induction a as [|x a IH]; cbn [length app skipn]; [reflexivity|exact IH]. Qed.
+
+Lemma lex_next_block nd c com : is_digit nd = true ->
+  lex_next (mkLexer (35 :: nd :: c) false com) = of_lres false com (read_arbitrary_data nd c).
+Proof.
+  intros Hd. unfold lex_next. cbn [chars in_header in_common]. cbv zeta.
+  rewrite Hd. reflexivity.
+Qed.
+
+Lemma block_prefix nd lenfield tail :
+  (1 <= length lenfield <= 9)%nat -> nd = (48 + N.of_nat (length lenfield))%N ->
+  read_arbitrary_data nd (lenfield ++ tail) =
+  match parse_usize lenfield with
+  | None => Val (Err InvalidBlockData)
+  | Some plen =>
+      if N.of_nat (length tail) <? plen then Val (Err InvalidBlockData)
+      else match skip_ws_to_separator SuffixNotAllowed (skipn (N.to_nat plen) tail) with
+           | Err e => Val (Err e)
+           | Ok rest' => Val (Ok (TBlock (firstn (N.to_nat plen) tail), rest'))
+           end
+  end.
+Proof.
+  intros Hl Hnd. unfold read_arbitrary_data.
+  assert (Ha : ascii_to_digit nd 10 = Some (N.of_nat (length lenfield))).
+  { unfold ascii_to_digit.
+    replace (is_digit nd && (nd - 48 <? 10)) with true by (symmetry; bool_lia).
+    f_equal. lia. }
+  rewrite Ha.
+  destruct (N.of_nat (length lenfield)) as [|p] eqn:Ep; [lia|].
+  cbv zeta. rewrite <- Ep. rewrite Nat2N.id.
+  replace (Nat.ltb (length (lenfield ++ tail)) (length lenfield)) with false
+    by (symmetry; apply Nat.ltb_ge; rewrite app_length; lia).
+  rewrite firstn_len_app.
+  destruct (parse_usize lenfield) as [plen|]; [|reflexivity].
+  rewrite drop_unwrap_ok by (rewrite app_length; lia).
+  cbn [obind]. rewrite skipn_len_app. reflexivity.
+Qed.
+
+Theorem block_truncated : forall nd lenfield payload com,
+  (1 <= length lenfield <= 9)%nat -> nd = (48 + N.of_nat (length lenfield))%N ->
+  forallb is_digit lenfield = true ->
+  (N.of_nat (length payload) < fst (radix_digits 10 lenfield 0 0))%N ->
+  lex_next (mkLexer (35 :: nd :: lenfield ++ payload) false com) = Val (SErr InvalidBlockData).
+Proof.
+  intros nd lenfield payload com Hl Hnd Hd Hp.
+  rewrite lex_next_block by bool_lia.
+  rewrite (block_prefix nd lenfield payload Hl Hnd).
+  unfold parse_usize, all_digits. rewrite Hd.
+  destruct lenfield as [|d ds]; [reflexivity|].
+  destruct (radix_digits 10 (d :: ds) 0 0) as [v n]. cbn [fst] in Hp.
+  destruct (u64_max <? v); [reflexivity|].
+  replace (N.of_nat (length payload) <? v) with true by (symmetry; lia).
+  reflexivity.
+Qed.
+
+Theorem block_bad_header : forall nd lenfield rest com, (1 <= length lenfield <= 9)%nat ->
+  nd = (48 + N.of_nat (length lenfield))%N -> forallb is_digit lenfield = false ->
+  lex_next (mkLexer (35 :: nd :: lenfield ++ rest) false com) = Val (SErr InvalidBlockData).
+Proof.
+  intros nd lenfield rest com Hl Hnd Hd.
+  rewrite lex_next_block by bool_lia.
+  rewrite (block_prefix nd lenfield rest Hl Hnd).
+  unfold parse_usize, all_digits. rewrite Hd.
+  destruct lenfield; reflexivity.
+Qed.
+
+Theorem doubled_colon : forall rest hdr com,
+  lex_next (mkLexer (58 :: 58 :: rest) hdr com) = Val (SErr InvalidSeparator).
+Proof. intros. reflexivity. Qed.
+
+Theorem colon_in_data : forall rest com,
+  lex_next (mkLexer (58 :: rest) false com) = Val (SErr InvalidSeparator).
+Proof.
+  intros rest com. unfold lex_next. cbn [chars in_header in_common]. cbv zeta.
+  change (58 =? 42) with false. change (58 =? 58) with true. cbv beta iota.
+  destruct rest as [|y r]; [reflexivity|].
+  destruct (negb (is_alpha y)); reflexivity.
+Qed.
+
+Theorem colon_in_common : forall rest hdr,
+  lex_next (mkLexer (58 :: rest) hdr true) = Val (SErr InvalidSeparator).
+Proof.
+  intros rest hdr. unfold lex_next. cbn [chars in_header in_common]. cbv zeta.
+  change (58 =? 42) with false. change (58 =? 58) with true. cbv beta iota.
+  rewrite orb_true_r.
+  destruct rest as [|y r]; [reflexivity|].
+  destruct (negb (is_alpha y)); reflexivity.
+Qed.
+
+Theorem comma_in_header : forall rest com,
+  lex_next (mkLexer (44 :: rest) true com) = Val (SErr HeaderSeparatorError).
+Proof. intros. reflexivity. Qed.
+
+Theorem doubled_comma : forall w rest com, forallb is_ws w = true ->
+  lex_next (mkLexer (44 :: w ++ 44 :: rest) false com) = Val (SErr SyntaxError).
+Proof.
+  intros w rest com Hw. unfold lex_next. cbn [chars in_header in_common]. cbv zeta.
+  change (44 =? 42) with false. change (44 =? 58) with false. change (44 =? 63) with false.
+  change (44 =? 59) with false. change (44 =? 10) with false. change (44 =? 44) with true.
+  cbv beta iota.
+  rewrite (skip_ws_app w 44 rest Hw eq_refl). reflexivity.
+Qed.
+
+Theorem comma_after_header_sep : forall x w rest hdr com, is_ws x = true -> (x =? 10)%N = false ->
+  forallb is_ws w = true ->
+  lex_next (mkLexer (x :: w ++ 44 :: rest) hdr com) = Val (SErr SyntaxError).
+Proof.
+  intros x w rest hdr com Hx H10 Hw. unfold lex_next. cbn [chars in_header in_common]. cbv zeta.
+  do 6 step_if. rewrite Hx. cbv beta iota.
+  rewrite ws_match.
+  change (x :: w ++ 44 :: rest) with ((x :: w) ++ 44 :: rest).
+  rewrite (skip_ws_app (x :: w) 44 rest); [reflexivity| |reflexivity].
+  cbn [forallb]. rewrite Hx, Hw. reflexivity.
+Qed.
+
+Theorem missing_separator_after_chardata : forall m w y rest com, (1 <= length m <= 12)%nat ->
+  (exists x m', m = x :: m' /\ is_alpha x = true) -> forallb is_mnemonic_char m = true ->
+  forallb is_ws w = true ->
+  is_mnemonic_char y = false -> is_ws y = false -> (y =? 44)%N = false -> (y =? 59)%N = false ->
+  lex_next (mkLexer (m ++ w ++ y :: rest) false com) = Val (SErr InvalidCharacterData).
+Proof.
+  intros m w y rest com Hl [x [m' [Hm Hx]]] Hp Hw Hy Hyw H44 H59.
+  assert (S : scan12 is_mnemonic_char 0 (m ++ w ++ y :: rest) = Some (w ++ y :: rest)).
+  { apply scan12_stop; [exact Hp|lia|]. left.
+    destruct w as [|a w]; cbn [app map hd]; [exact Hy|].
+    cbn [forallb] in Hw. apply andb_prop in Hw. destruct Hw as [Ha _]. bool_lia. }
+  assert (C : exists p, consumed (m ++ w ++ y :: rest) (w ++ y :: rest) 0 = Val p).
+  { apply consumed_ok. rewrite (app_length m). lia. }
+  destruct C as [p C].
+  subst m. cbn [app] in *. unfold lex_next. cbn [chars in_header in_common]. cbv zeta.
+  do 7 step_if. rewrite Hx. cbv beta iota.
+  unfold read_character_data. rewrite S. rewrite C. cbn [obind].
+  rewrite (sws_sep_err InvalidCharacterData w y rest Hw Hyw H44 H59). reflexivity.
+Qed.
+
+Theorem missing_separator_after_string : forall q body w y rest com, ((q =? 34) || (q =? 39))%N = true ->
+  forallb (fun b => negb (b =? q)%N && is_ascii b) body = true -> forallb is_ws w = true ->
+  is_ws y = false -> (y =? 44)%N = false -> (y =? 59)%N = false -> (y =? q)%N = false ->
+  lex_next (mkLexer (q :: body ++ q :: w ++ y :: rest) false com) = Val (SErr SuffixNotAllowed).
+Proof.
+  intros q body w y rest com Hq Hb Hw Hyw H44 H59 Hyq.
+  rewrite lex_next_quote by exact Hq.
+  unfold read_string_data.
+  assert (L : string_loop q (body ++ q :: w ++ y :: rest) = Ok (w ++ y :: rest)).
+  { rewrite (string_loop_body q _ body Hb). cbn [string_loop]. rewrite N.eqb_refl.
+    destruct w as [|a w]; cbn [app].
+    - rewrite Hyq. reflexivity.
+    - cbn [forallb] in Hw. apply andb_prop in Hw. destruct Hw as [Ha _].
+      replace (a =? q) with false by (symmetry; bool_lia). reflexivity. }
+  rewrite L.
+  destruct (consumed_ok (body ++ q :: w ++ y :: rest) (w ++ y :: rest) 1) as [p C].
+  { rewrite (app_length body). cbn [length]. lia. }
+  rewrite C. cbn [obind].
+  rewrite (sws_sep_err SuffixNotAllowed w y rest Hw Hyw H44 H59). reflexivity.
 Qed.
